@@ -105,6 +105,24 @@ def body(ctx, desc, x):
     except Exception:  # noqa: BLE001
         return ""
     ctx.mark()
+    c = _compare(ctx, tree, shape, labels, kinds, nodes, s, unique, root, typed)
+    if c:
+        return c
+    # history: everything was exported once; relabel the last node (same tree
+    # object, no node added or removed) and export again
+    j = n - 1
+    try:
+        nodes[j].set_data("zz", with_clones=False)
+    except Exception:  # noqa: BLE001 - refused (would duplicate a sibling): nothing to re-export
+        return ""
+    labels2 = list(labels)
+    labels2[j] = "zz"
+    c = _compare(ctx, tree, shape, labels2, kinds, nodes, s, unique, root, typed)
+    return "after-rename:" + c if c else ""
+
+
+def _compare(ctx, tree, shape, labels, kinds, nodes, s, unique, root, typed):
+    n = len(shape)
     start = tree.system_root if s < 0 else nodes[s]
     members = list(range(n)) if s < 0 else descendants_of(shape, s)
 
@@ -223,8 +241,18 @@ def body(ctx, desc, x):
     if mm_edges != [(idx[a], idx[b], c) for a, b, c in exp_edges]:
         return "mermaid:edges"
 
-    # ---- RDF (keyed by data_id by construction)
+    # ---- RDF (keyed by data_id by construction); every input is concrete here
+    # (pool names, bisected selectors), so rdflib runs without CrossHair tracing
     if unique:
+        from vlib.engine import untraced
+
+        with untraced(ctx):
+            return _compare_rdf(tree, shape, labels, kinds, nodes, s, root, typed, members)
+    return ""
+
+
+def _compare_rdf(tree, shape, labels, kinds, nodes, s, root, typed, members):
+    if True:
         from nutree.rdf import NUTREE_NS, Literal
 
         g = tree.to_rdf_graph() if s < 0 else nodes[s].to_rdf_graph(add_self=root)
